@@ -125,11 +125,13 @@ CLAIMED.update({
               "newlines, '=', digits) that un-doubling the doubled form is the identity, that doubling commutes with trimming, that the "
               "short-form text-row reader stops exactly at the closing quote and returns the label, that number rows come back as "
               "written, that the entry loops of an interval / point tier block of any length return exactly the written entries, and "
-              "that the long-form greedy quoted group is the escaped label.  The whole-file round trip, the bit-identity / near-integer "
-              "clause for times, the fixed-point clause and the JSON formats are decided on the real Textgrid.save / openTextgrid; "
+              "that the long-form greedy quoted group is the escaped label; whole files: parsing what the short writer / the long writer "
+              "printed returns every tier, name, span and entry (C01_short_file_roundtrip, C01_long_file_roundtrip; the keyword chunking "
+              "is a decidable side condition evaluated on every generated case, the fields inside a block are located by proof).  The "
+              "bit-identity / near-integer clause for times, the fixed-point clause and the JSON formats are decided on the real Textgrid.save / openTextgrid; "
               "written text and parsed dictionary are compared with the writer and reader models inside Coq.",
               "Coq proof (strong induction over quote runs, list induction) + in-Coq differential correspondence of writer and reader models + round trip on the implementation",
-              "5/C01", "partial: whole-file composition (chunking by keyword, header lines) and the number layer (repr/float round trip, isclose 1e-14) are evaluated, not proved; numbers are opaque tokens."),
+              "5/C01", "partial: the keyword chunking of a file (re.split at the class / item / entry keywords) is a decidable hypothesis evaluated per case, and the number layer (repr/float round trip, isclose 1e-14) is evaluated, not proved; numbers are opaque tokens."),
     "C02": _c("Proof: Props/C02.v shows that the specification reader decodes the string token written for any name or label to exactly "
               "that string (format keywords included), that every quote inside a written string is doubled, and that with blank "
               "filling on the written entries of a well-formed interval tier are an ascending gap-free overlap-free partition of "
